@@ -13,7 +13,7 @@ import warnings
 from ..ctx import Workload
 from ..oracles import pattern_ast as P
 from ..oracles import pattern_eval as E
-from .c10 import has_exists, validate_text
+from .c10 import has_consecutive_indices, has_exists, validate_text
 
 ID = "C09"
 LEVEL = "exploration"
@@ -59,6 +59,8 @@ def lib_eq(ctx, p, q, trees, what):
         key = "raised:%s@%s" % (type(e).__name__, where_raised(e))
         if any(has_exists(t) for t in trees):
             key = "exists-unmodelled"
+        elif any(has_consecutive_indices(t) for t in trees):
+            key = "consecutive-index-steps-unmodelled"
         elif isinstance(e, ValueError) and "satisfiable with the same object type" in str(e) and where_raised(e).startswith("patterns.py"):
             key = "cross-type-and-refused"
         ctx.violation(key, "equivalent_patterns raised %s on valid patterns (%s): %s" % (type(e).__name__, what, str(e)[:120]),
